@@ -191,6 +191,26 @@ def check_comparisons(rep: Report, prog: Program, resolver: Resolver, rid: str) 
                               "physical values", fi.where(e.node))
             if n < 2:
                 raise AnalysisError(f"{qual}: expected a same-unit magnitude comparison and a converted comparison, found {n}")
+            # the verdict itself: every boolean the method returns for two quantities of one dimension is the
+            # result of one of those exact comparisons - not a constant, a tolerance test or anything else
+            cmp_texts = {ast.unparse(e.node) for e in cmps}
+            for o in run.outcomes:
+                if o.kind != "return" or isinstance(o.value, NotImpl):
+                    continue
+                v = o.value
+                cond = " and ".join(("" if t else "not ") + f"({x})" for x, t in o.path[-3:])
+                key = f"{qual}:return[{cond[:70]}]"
+                if isinstance(v, BoolV) and isinstance(v.cond, tuple) and v.cond[0] == "cmp":
+                    rep.ok(rid, key)
+                    continue
+                if isinstance(v, BoolV) and v.value is not None and any(x in cmp_texts for x, _ in o.path):
+                    # `if a == b: return True` - a constant under the path condition of the exact comparison
+                    rep.ok(rid, key)
+                    continue
+                what = f"the constant {v.value}" if isinstance(v, BoolV) and v.value is not None else "a value that is not the result of comparing the two magnitudes"
+                rep.fail(rid, key, f"{qual} returns {what} when {cond or 'always'}: the verdict for two quantities of one dimension must be "
+                         "the exact comparison of their values in one unit (a shortcut or a tolerance makes it depend on the units "
+                         "the operands are written in, and breaks trichotomy with <)", fi.where(o.node) if getattr(o, "node", None) is not None else fi.where())
 
 
 def _guarded_same_unit(e: Any) -> bool:
